@@ -528,6 +528,9 @@ class LabelRows(Filter[Iterable[Union[Dense,Sparse]],Iterable[Union[Dense,Sparse
             ind = first.headers[label] if isinstance(label,str) else label
             return map(LabelDense, rows, repeat(ind), repeat(tipe))
         else:
+            if not isinstance(label,str):
+                #sparse rows with headers are keyed by header so we need the header at the given position
+                label = (getattr(first,'_inv',None) or {}).get(label,label)
             return map(LabelSparse, rows, repeat(label), repeat(tipe))
 
 class EncodeCatRows(Filter[Iterable[Union[Any,Dense,Sparse]], Iterable[Union[Any,Dense,Sparse]]]):
